@@ -21,7 +21,8 @@ TRUSTED = [
     'same component list is property C09 (Name.normalize); here it is exercised by the harness only (every attach/detach '
     'uses a randomly chosen representation incl. bytearray/memoryview components) and the Lean theorem '
     'key_repr_irrelevant covers only NameTrie._path_from_key (buffer class of the components)',
-    'C04: Interests are unsigned and carry no ApplicationParameters (validator path = C05); the clock is the integer '
+    'C04: Interests are unsigned; those with ApplicationParameters meet an accepting validator (possibly a slow one) at '
+    'every prefix (which Interests a validator lets through is C05); the clock is the integer '
     'millisecond reading of utils.timestamp() on the virtual-time loop; asyncio task scheduling of submit_interest is '
     'exercised by the correspondence only',
     'C04: reply at exactly the deadline instant counts as "lifetime not elapsed" (inclusive bound, as the code documents '
@@ -35,19 +36,43 @@ RULE = ('histories of 2..14 attach/detach operations over the 31 names of a dept
         'with make_interest (explicit or absent lifetime, optionally inside an LpPacket with a PIT token); in half of the '
         'cases one attached prefix is then detached and the sweep repeated. v2: the reply closure is called at lifetime-1, '
         'lifetime, lifetime+1 ms (subsets, also far before/after, also with the face down). Front-ends v2, legacy v1, '
-        'Dispatcher. non-trivial = at least one Interest chose between two or more attached prefixes of its name; '
+        'Dispatcher. Hardening: component alphabets with typed / empty components (32=a beside a, 253=a, 8=), percent-encoded '
+        'URI form; detach-then-attach and None-then-real-handler sequences; operations through route() (both front-ends) and '
+        'the legacy register()/unregister() coroutines; Interests with lifetime 0, CanBePrefix, MustBeFresh, HopLimit, a '
+        'ForwardingHint naming another prefix of the tree, ApplicationParameters (empty and non-empty, digest component in '
+        'the name) with a validator that takes up to lifetime+50 ms; reply twice at one instant; reply closures used '
+        'after later Interests and after detach / re-attach of their prefix (deferred replies); PIT tokens on the legacy '
+        'front-end. non-trivial = at least one Interest chose between two or more attached prefixes of its name; '
         'distinct = distinct cases')
 
 LABELS = ['a', 'ab']
 SIB = 'b'
+# typed / empty components: same value under another type (32=a vs a), 3-byte type number (253=a), empty value (8=)
+LABEL_POOL = ['a', 'ab', '32=a', '8=', '253=a', '32=ab', '32=']
 DEPTH = 4
-REPRS = ['uri', 'strlist', 'byteslist', 'balist', 'mvlist', 'rwmvlist', 'mixed', 'wire', 'wire-ba', 'wire-mv']
+REPRS = ['uri', 'uri-pct', 'strlist', 'byteslist', 'balist', 'mvlist', 'rwmvlist', 'mixed', 'wire', 'wire-ba', 'wire-mv']
 
 
 # ------------------------------------------------------------------------------------- names
+def _tl(n):
+    if n < 253:
+        return bytes([n])
+    if n < 65536:
+        return b'\xfd' + n.to_bytes(2, 'big')
+    return b'\xfe' + n.to_bytes(4, 'big')
+
+
+def label_tv(label):
+    """a label is either plain text (generic component, type 8) or '<type>=<text>' (typed component, possibly empty)"""
+    m = re.match(r'^(\d+)=(.*)$', label)
+    if m:
+        return int(m.group(1)), m.group(2).encode()
+    return 8, label.encode()
+
+
 def comp_hex(label):
-    b = label.encode()
-    return '08%02x' % len(b) + b.hex()
+    t, b = label_tv(label)
+    return (_tl(t) + _tl(len(b)) + b).hex()
 
 
 def path_hex(path):
@@ -55,8 +80,7 @@ def path_hex(path):
 
 
 def tlv(t, v):
-    assert t < 253 and len(v) < 253
-    return bytes([t, len(v)]) + v
+    return _tl(t) + _tl(len(v)) + v
 
 
 def represent(path, how):
@@ -65,6 +89,8 @@ def represent(path, how):
     wire = tlv(7, b''.join(comps))
     if how == 'uri':
         return '/' + '/'.join(path), []
+    if how == 'uri-pct':              # the same name written with explicit type numbers and percent-encoded values
+        return '/' + '/'.join('%d=%s' % (t, ''.join('%%%02X' % c for c in v)) for t, v in map(label_tv, path)), []
     if how == 'strlist':
         return list(path), []
     if how == 'byteslist':
@@ -89,25 +115,74 @@ def represent(path, how):
     raise ValueError(how)
 
 
-def all_tree():
+def all_tree(labels=None):
     out = [[]]
     level = [[]]
     for _ in range(DEPTH):
-        level = [p + [l] for p in level for l in LABELS]
+        level = [p + [l] for p in level for l in (labels or LABELS)]
         out += level
     return out
 
 
 # ------------------------------------------------------------------------------------- cases
+def _nonneg(n):
+    for k in (1, 2, 4, 8):
+        if n < 1 << (8 * k):
+            return n.to_bytes(k, 'big')
+    raise ValueError(n)
+
+
+def iopts(ev):
+    return ev[7] if len(ev) > 7 and ev[7] else {}
+
+
+def hand_built(ev):
+    o = iopts(ev)
+    return any(k in o for k in ('cbp', 'mbf', 'hop', 'hint', 'app'))
+
+
+def interest_name_hex(ev):
+    """component hex list of the name the Interest carries on the wire (ApplicationParameters add the digest component)"""
+    import hashlib
+    comps = path_hex(ev[1])
+    app = iopts(ev).get('app')
+    if app is not None:
+        comps = comps + [tlv(2, hashlib.sha256(tlv(0x24, bytes.fromhex(app))).digest()).hex()]
+    return comps
+
+
+def build_interest(ev):
+    """NDN packet format 0.3 Interest written out by hand (used when optional elements are wanted)"""
+    o = iopts(ev)
+    body = tlv(7, b''.join(bytes.fromhex(h) for h in interest_name_hex(ev)))
+    if o.get('cbp'):
+        body += tlv(0x21, b'')
+    if o.get('mbf'):
+        body += tlv(0x12, b'')
+    if o.get('hint') is not None:
+        body += tlv(0x1e, tlv(7, b''.join(bytes.fromhex(h) for h in path_hex(o['hint']))))
+    body += tlv(0x0a, bytes.fromhex('01020304'))
+    if ev[3] is not None:
+        body += tlv(0x0c, _nonneg(ev[3]))
+    if o.get('hop') is not None:
+        body += tlv(0x22, bytes([o['hop']]))
+    if o.get('app') is not None:
+        body += tlv(0x24, bytes.fromhex(o['app']))
+    return tlv(5, body)
+
+
 def _replies(rng, lifetime):
     L = 4000 if lifetime is None else lifetime
     r = rng.random()
-    if r < 0.35:
+    if r < 0.3:
         offs = [L - 1, L, L + 1]
-    elif r < 0.5:
+    elif r < 0.45:
         offs = [rng.choice([L - 1, L, L + 1])]
-    elif r < 0.6:
+    elif r < 0.55:
         offs = sorted(rng.sample([0, L // 2, L - 1, L, L + 1, L + 1000], 2))
+    elif r < 0.62:
+        o = rng.choice([0, L - 1, L])
+        offs = [o, o]                                  # reply called twice at the same instant
     elif r < 0.7:
         offs = [rng.choice([0, L + 5000])]
     else:
@@ -116,46 +191,118 @@ def _replies(rng, lifetime):
     return [[o, ('06%02x' % (2 + k)) + '0700' + '%02x' % rng.randrange(256) * k] for k, o in enumerate(offs)]
 
 
-def _interest(rng, fe, path):
-    lifetime = rng.choice([None, 1, 2, 10, 100, 100, 4000, 60000])
+def _interest(rng, fe, path, env=None):
+    lifetime = rng.choice([None, 0, 1, 2, 10, 100, 100, 4000, 60000])
     tok = None
-    if fe == 'v2' and rng.random() < 0.3:
+    if fe != 'disp' and rng.random() < (0.3 if fe == 'v2' else 0.1):
         tok = bytes(rng.randrange(256) for _ in range(rng.choice([1, 4, 8]))).hex()
     down = fe != 'disp' and rng.random() < 0.04
     reps = _replies(rng, lifetime) if fe != 'disp' else []
     if fe == 'v1':
         reps = reps[:1]
-    return ['i', path, rng.choice([0, 1, 7, 250]), lifetime, tok, down, reps]
+    ev = ['i', path, rng.choice([0, 1, 7, 250]), lifetime, tok, down, reps]
+    o = {}
+    if rng.random() < 0.3:
+        # optional Interest elements: whatever the Interest carries, it goes to the handler of its longest prefix
+        if rng.random() < 0.5:
+            o['cbp'] = 1
+        if rng.random() < 0.3:
+            o['mbf'] = 1
+        if rng.random() < 0.3:
+            o['hop'] = rng.choice([0, 1, 255])
+        if env is not None and rng.random() < 0.45:
+            o['hint'] = list(rng.choice(env['tree']))      # a forwarding hint that is itself a name of the tree
+        if rng.random() < 0.4:
+            o['app'] = rng.choice(['', '00', '0102', 'ff' * 40])
+            if fe == 'v2' and rng.random() < 0.5:
+                # Interests with ApplicationParameters go through the prefix's validator: let it take a while
+                L = 4000 if lifetime is None else lifetime
+                o['vdelay'] = rng.choice([1, 5, max(1, L - 1), max(1, L), L + 1, L + 50])
+                if not reps and rng.random() < 0.7:
+                    k = rng.randrange(2, 6)
+                    ev[6] = [[rng.choice([0, L, L + 1, o['vdelay'] + L - 1, o['vdelay'] + L]),
+                              ('06%02x' % (2 + k)) + '0700' + '%02x' % rng.randrange(256) * k]]
+    if o:
+        ev.append(o)
+    return ev
 
 
-def _sweep(rng, fe, tree, frac=1.0):
+def _sweep(rng, fe, tree, frac=1.0, env=None):
+    labels = env['labels'] if env else LABELS
+    sibs = env['sibs'] if env else [SIB]
     names = [p for p in tree if rng.random() < frac]
     sib = []
     for _ in range(8):
         p = list(rng.choice(tree))
         k = rng.random()
         if k < 0.4 and p:
-            p[rng.randrange(len(p))] = SIB            # a sibling label somewhere
+            p[rng.randrange(len(p))] = rng.choice(sibs)            # a sibling label somewhere
         elif k < 0.7:
-            p = p + [SIB]                             # below a tree name
+            p = p + [rng.choice(sibs)]                             # below a tree name
         else:
-            p = p + [rng.choice(LABELS), SIB][:max(0, 6 - len(p))]
+            p = p + [rng.choice(labels), rng.choice(sibs)][:max(0, 6 - len(p))]
         sib.append(p)
     names = names + sib
     rng.shuffle(names)
-    return [_interest(rng, fe, p) for p in names]
+    evs = [_interest(rng, fe, p, env) for p in names]
+    if fe == 'v2' and env is not None:
+        # deferred replies: the reply closure of an earlier Interest used after later Interests (and, when the caller
+        # appends operations, after detach / re-attach of its prefix); ids are unique within the case
+        out = []
+        pend = []
+        for e in evs:
+            out.append(e)
+            if rng.random() < 0.12:
+                env['next_id'] += 1
+                o = dict(iopts(e))
+                o['id'] = env['next_id']
+                if len(e) > 7:
+                    e[7] = o
+                else:
+                    e.append(o)
+                L = 4000 if e[3] is None else e[3]
+                k = rng.randrange(3, 9)
+                pend.append(['r', o['id'], rng.choice([0, L - 1, L, L + 1, L + 300]),
+                             ('06%02x' % (2 + k)) + '0700' + '%02x' % rng.randrange(256) * k])
+            if pend and rng.random() < 0.3:
+                out.append(pend.pop(rng.randrange(len(pend))))
+        env['pending'] += [r for r in pend if r[2] >= 0]
+        evs = [e for e in out if e[0] != 'r' or e[2] >= 0]
+    return evs
+
+
+def _via(rng, fe, kind, handler=True):
+    """front-end entry point used for the operation: '' = attach_handler / detach_handler / set_interest_filter /
+    unset_interest_filter / Dispatcher; route = the route() decorator; register / unregister = legacy coroutines"""
+    if fe == 'v2' and kind == 'a' and handler and rng.random() < 0.2:
+        return '@route'
+    if fe == 'v1' and kind == 'a' and handler and rng.random() < 0.3:
+        return rng.choice(['@route', '@register'])
+    if fe == 'v1' and kind == 'd' and rng.random() < 0.25:
+        return '@unregister'
+    return ''
 
 
 def cases(rng, tier):
     n = 400 if tier == 'quick' else 8000
-    tree = all_tree()
     for ci in range(n):
         fe = rng.choice(['v2', 'v2', 'v2', 'v1', 'disp'])
+        if rng.random() < 0.55:
+            labels, sibs = list(LABELS), [SIB]
+        else:
+            labels = rng.sample(LABEL_POOL, 2)
+            sibs = [l for l in LABEL_POOL + [SIB] if l not in labels]
+        tree = all_tree(labels)
+        env = {'labels': labels, 'sibs': sibs, 'tree': tree, 'next_id': 0, 'pending': []}
         evs = []
         att = {}
         hid = 0
         # bias towards nested chains: pick a spine and attach mostly on/near it
         spine = rng.choice([p for p in tree if len(p) == DEPTH])
+
+        def how(kind, handler=True):
+            return rng.choice(REPRS) + _via(rng, fe, kind, handler)
+
         for _ in range(rng.randint(3, 14)):
             r = rng.random()
             if r < 0.6:
@@ -164,74 +311,116 @@ def cases(rng, tier):
                 p = rng.choice(tree)
             key = '/'.join(p)
             r = rng.random()
-            how = rng.choice(REPRS)
-            if r < 0.62:
+            if r < 0.56:
                 hid += 1
                 h = hid if rng.random() > 0.03 else None
-                evs.append(['a', p, h, how])
+                evs.append(['a', p, h, how('a', h is not None)])
                 if key not in att and h is not None:
                     att[key] = hid
+            elif r < 0.6 and key not in att:
+                # "no handler" first, a real handler afterwards (the second attach must be accepted)
+                hid += 1
+                evs.append(['a', p, None, how('a', False)])
+                evs.append(['a', p, hid, how('a')])
+                att[key] = hid
+            elif r < 0.64 and att:
+                # detach, then attach another handler at the same prefix
+                k2 = rng.choice(sorted(att))
+                hid += 1
+                evs.append(['d', k2.split('/') if k2 else [], how('d')])
+                evs.append(['a', k2.split('/') if k2 else [], hid, how('a')])
+                att[k2] = hid
             elif r < 0.72 and att:
                 k2 = rng.choice(sorted(att))
                 hid += 1
-                evs.append(['a', k2.split('/') if k2 else [], hid, how])   # duplicate attach
+                evs.append(['a', k2.split('/') if k2 else [], hid, how('a')])   # duplicate attach
             elif r < 0.92 and att:
                 k2 = rng.choice(sorted(att))
-                evs.append(['d', k2.split('/') if k2 else [], how])
+                evs.append(['d', k2.split('/') if k2 else [], how('d')])
                 del att[k2]
             else:
-                evs.append(['d', p, how])
+                evs.append(['d', p, how('d')])
                 att.pop(key, None)
         full = tier == 'thorough' or ci % 3 == 0
-        evs += _sweep(rng, fe, tree, 1.0 if full else 0.4)
+        evs += _sweep(rng, fe, tree, 1.0 if full else 0.4, env)
         if att and rng.random() < 0.5:
             k2 = rng.choice(sorted(att))
-            evs.append(['d', k2.split('/') if k2 else [], rng.choice(REPRS)])
-            evs += _sweep(rng, fe, tree, 1.0 if full else 0.4)
-        yield {'fe': fe, 'events': evs}
+            evs.append(['d', k2.split('/') if k2 else [], how('d')])
+            if rng.random() < 0.3:
+                hid += 1
+                evs.append(['a', k2.split('/') if k2 else [], hid, how('a')])    # ... and re-attached to another handler
+            # reply closures obtained before the detach, used after it
+            evs += env['pending']
+            env['pending'] = []
+            evs += _sweep(rng, fe, tree, 1.0 if full else 0.4, env)
+        evs += env['pending']
+        c = {'fe': fe, 'events': evs}
+        if labels != LABELS:
+            c['labels'] = labels
+        yield c
+
+
+def _with(evs, i, e):
+    return evs[:i] + [e] + evs[i + 1:]
 
 
 def shrink(case):
     evs = case['events']
-    fe = case['fe']
+    extra = {k: v for k, v in case.items() if k not in ('fe', 'events')}
+
+    def mk(events):
+        d = {'fe': case['fe'], 'events': events}
+        d.update(extra)
+        return d
     ints = [i for i, e in enumerate(evs) if e[0] == 'i']
-    ops = [i for i, e in enumerate(evs) if e[0] != 'i']
     if len(ints) > 1:
-        for i in ints:                                   # keep a single Interest
-            yield {'fe': fe, 'events': [e for j, e in enumerate(evs) if e[0] != 'i' or j == i]}
+        for i in ints:                                   # keep a single Interest (and the deferred replies to it)
+            yield mk([e for j, e in enumerate(evs) if e[0] != 'i' or j == i])
     if len(evs) > 3:
         h = len(evs) // 2
-        yield {'fe': fe, 'events': evs[h:]}
-        yield {'fe': fe, 'events': evs[:h]}
+        yield mk(evs[h:])
+        yield mk(evs[:h])
     for i in reversed(range(len(evs))):
-        yield {'fe': fe, 'events': evs[:i] + evs[i + 1:]}
+        yield mk(evs[:i] + evs[i + 1:])
     for i, e in enumerate(evs):
         if e[0] == 'i':
             if len(e[6]) >= 1:
                 for j in range(len(e[6])):
-                    yield {'fe': fe, 'events': evs[:i] + [e[:6] + [e[6][:j] + e[6][j + 1:]]] + evs[i + 1:]}
+                    yield mk(_with(evs, i, e[:6] + [e[6][:j] + e[6][j + 1:]] + e[7:]))
             if e[4] is not None:
-                yield {'fe': fe, 'events': evs[:i] + [e[:4] + [None] + e[5:]] + evs[i + 1:]}
+                yield mk(_with(evs, i, e[:4] + [None] + e[5:]))
             if e[2] != 0:
-                yield {'fe': fe, 'events': evs[:i] + [e[:2] + [0] + e[3:]] + evs[i + 1:]}
+                yield mk(_with(evs, i, e[:2] + [0] + e[3:]))
             if e[5]:
-                yield {'fe': fe, 'events': evs[:i] + [e[:5] + [False] + e[6:]] + evs[i + 1:]}
-        elif e[-1] != 'uri':
-            yield {'fe': fe, 'events': evs[:i] + [e[:-1] + ['uri']] + evs[i + 1:]}
-    _ = ops
-    if any(e[1] for e in evs):                           # shorten every name by its first component
-        yield {'fe': fe, 'events': [e[:1] + [e[1][1:]] + e[2:] for e in evs]}
+                yield mk(_with(evs, i, e[:5] + [False] + e[6:]))
+            for k in sorted(iopts(e)):
+                if k != 'id':
+                    yield mk(_with(evs, i, e[:7] + [{a: b for a, b in e[7].items() if a != k}]))
+        elif e[0] in ('a', 'd'):
+            if '@' in e[-1]:
+                yield mk(_with(evs, i, e[:-1] + [e[-1].split('@')[0]]))
+            elif e[-1] != 'uri':
+                yield mk(_with(evs, i, e[:-1] + ['uri']))
+    named = [e for e in evs if e[0] != 'r']
+    if any(e[1] for e in named):                           # shorten every name by its first component
+        yield mk([e if e[0] == 'r' else e[:1] + [e[1][1:]] + e[2:] for e in evs])
     for i, e in enumerate(evs):                          # shorten one name
-        if e[1]:
-            yield {'fe': fe, 'events': evs[:i] + [e[:1] + [e[1][:-1]] + e[2:]] + evs[i + 1:]}
+        if e[0] != 'r' and e[1]:
+            yield mk(_with(evs, i, e[:1] + [e[1][:-1]] + e[2:]))
 
 
 # -------------------------------------------------------------------------------- implementation
+VDELAY = {'ms': 0}      # how long the (accepting) validators take for the Interest being delivered
+
+
 def _mkval(fe, tag):
     if fe == 'v2':
+        import asyncio
         from ndn import types
 
         async def v(name, sig, ctx):
+            if VDELAY['ms']:
+                await asyncio.sleep(VDELAY['ms'] / 1000.0)
             return types.ValidResult.PASS
     else:
         async def v(name, sig):
@@ -259,6 +448,7 @@ def _ret(v):
 
 
 def run_impl(case):
+    import asyncio
     from ndn import encoding as enc
     fe = case['fe']
     trace = []
@@ -282,43 +472,96 @@ def run_impl(case):
     if fe == 'disp':
         from ndn.app_support.dispatcher import Dispatcher
         disp = Dispatcher()
-        do_attach, do_detach = disp.register, disp.unregister
         mk = mk_v1
     else:
         rig = apphelp.AppRig(fe).__enter__()
-        if fe == 'v2':
-            do_attach, do_detach = rig.app.attach_handler, rig.app.detach_handler
-            mk = mk_v2
-        else:
-            do_attach, do_detach = rig.app.set_interest_filter, rig.app.unset_interest_filter
-            mk = mk_v1
+        mk = mk_v2 if fe == 'v2' else mk_v1
+        if fe == 'v1':
+            # what main_loop() sets up before any route can be registered
+            rig.app._prefix_register_semaphore = asyncio.Semaphore(1)
     now_ms = 1000000
+    closures = {}           # Interest id -> (index of its record in the trace, reply closure)
 
     def set_clock(ms):
         rig.loop.advance((ms + 0.5) / 1000.0)
         assert rig.now_ms() == ms, (rig.now_ms(), ms)
+
+    def task_outcome(coro_or_none, thunk=None):
+        """run a legacy coroutine (or a thunk that spawns a task itself) and raise the exception its task ended with"""
+        made = []
+        if coro_or_none is not None:
+            made.append(rig.loop.run_now(coro_or_none))
+        else:
+            orig = rig.loop.create_task
+
+            def spy(coro, **kw):
+                t = orig(coro, **kw)
+                made.append(t)
+                return t
+            rig.loop.create_task = spy
+            try:
+                rig.loop.call_now(thunk)
+            finally:
+                del rig.loop.create_task
+        for task in made:
+            if task.done() and not task.cancelled() and task.exception() is not None:
+                raise task.exception()
+
+    def do_op(kind, via, obj, h, val):
+        if fe == 'disp':
+            return disp.register(obj, h) if kind == 'a' else disp.unregister(obj)
+        app = rig.app
+        if fe == 'v2':
+            if kind == 'd':
+                return app.detach_handler(obj)
+            if via == 'route':
+                return rig.loop.call_now(lambda: app.route(obj, val)(h))     # route() spawns the registration task
+            return app.attach_handler(obj, h, val)
+        if kind == 'd':
+            if via == 'unregister':
+                return task_outcome(app.unregister(obj))
+            return app.unset_interest_filter(obj)
+        if via == 'route':
+            return task_outcome(None, lambda: app.route(obj, val)(h))
+        if via == 'register':
+            return task_outcome(app.register(obj, h, val))
+        return app.set_interest_filter(obj, h, val)
+
+    def do_reply(rec, reply, data, down):
+        n_sent = len(rig.face.sent)
+        r = {'now': now_ms, 'ret': None, 'exc': None}
+        rig.face.running = not down
+        try:
+            r['ret'] = _ret(rig.loop.call_now(reply, bytes.fromhex(data)))
+        except Exception as e:      # noqa
+            r['exc'] = _exc_name(e)
+        finally:
+            rig.face.running = True
+        r['sent'] = [b.hex() for b in rig.face.sent[n_sent:]]
+        rec['replies'].append(r)
 
     try:
         if rig is not None:
             set_clock(now_ms)
         for ev in case['events']:
             if ev[0] in ('a', 'd'):
-                obj, scribble = represent(ev[1], ev[-1])
+                how, _, via = ev[-1].partition('@')
+                obj, scribble = represent(ev[1], how)
                 exc = None
                 try:
-                    if ev[0] == 'a':
-                        if fe == 'disp':
-                            do_attach(obj, mk(ev[2]) if ev[2] is not None else None)
-                        else:
-                            # every attach brings its own (accepting) validator, tagged with the event index, so that
-                            # the validator in force at a prefix can be observed after a refused attach
-                            do_attach(obj, mk(ev[2]) if ev[2] is not None else None, _mkval(fe, len(trace)))
-                    else:
-                        do_detach(obj)
+                    h = mk(ev[2]) if ev[0] == 'a' and ev[2] is not None else None
+                    if h is None:
+                        via = via if ev[0] == 'd' else ''
+                    # every attach brings its own (accepting) validator, tagged with the event index, so that
+                    # the validator in force at a prefix can be observed after a refused attach
+                    do_op(ev[0], via, obj, h, _mkval(fe, len(trace)) if fe != 'disp' else None)
                 except Exception as e:      # noqa
                     exc = _exc_name(e)
-                for b in scribble:
-                    b[:] = b'\xff' * len(b)
+                if not via:
+                    # synchronous entry points only: route()/register()/unregister() leave a task running that may
+                    # legitimately still read the caller's buffers
+                    for b in scribble:
+                        b[:] = b'\xff' * len(b)
                 vtag = None
                 if fe != 'disp':
                     tree = rig.app._fib if fe == 'v2' else rig.app._prefix_tree
@@ -329,10 +572,25 @@ def run_impl(case):
                         vtag = None
                 trace.append({'ev': ev[0], 'exc': exc, 'vtag': vtag})
                 continue
-            _, path, gap, lifetime, tok, down, reps = ev
-            name = [bytes.fromhex(h) for h in path_hex(path)]
-            wire = enc.make_interest(name, enc.InterestParam(lifetime=lifetime, nonce=0x01020304))
-            wire = bytes(wire)
+            if ev[0] == 'r':
+                rec = {'ev': 'r', 'done': False}
+                trace.append(rec)
+                if ev[1] in closures:
+                    k0, reply, down = closures[ev[1]]
+                    if trace[k0]['arrival'] + ev[2] > now_ms:
+                        now_ms = trace[k0]['arrival'] + ev[2]
+                        set_clock(now_ms)
+                    do_reply(trace[k0], reply, ev[3], down)
+                    rec['done'] = True
+                    rec['of'] = k0
+                    rec['nth'] = len(trace[k0]['replies']) - 1
+                continue
+            _, path, gap, lifetime, tok, down, reps = ev[:7]
+            if hand_built(ev):
+                wire = build_interest(ev)
+            else:
+                name = [bytes.fromhex(h) for h in path_hex(path)]
+                wire = bytes(enc.make_interest(name, enc.InterestParam(lifetime=lifetime, nonce=0x01020304)))
             del calls[:]
             rec = {'ev': 'i', 'exc': None, 'ret': None, 'replies': [], 'arrival': 0, 'disp': fe == 'disp'}
             if fe == 'disp':
@@ -347,29 +605,30 @@ def run_impl(case):
                 rec['arrival'] = now_ms
                 pkt = wire if tok is None else tlv(0x64, tlv(0x62, bytes.fromhex(tok)) + tlv(0x50, wire))
                 n_sent = len(rig.face.sent)
-                rig.deliver(pkt)
+                VDELAY['ms'] = iopts(ev).get('vdelay', 0) if fe == 'v2' else 0
+                try:
+                    rig.deliver(pkt)
+                    if VDELAY['ms'] and not calls:
+                        # the validator of the prefix is still at work: the handler runs when it has finished; the
+                        # lifetime of the Interest keeps counting from its arrival
+                        now_ms += VDELAY['ms']
+                        set_clock(now_ms)
+                finally:
+                    VDELAY['ms'] = 0
                 rec['sent_on_delivery'] = [b.hex() for b in rig.face.sent[n_sent:]]
             rec['calls'] = [[h, nm] for h, nm, _, _ in calls]
             if calls and fe != 'disp':
                 reply = calls[0][2] if fe == 'v2' else rig.app.put_raw_packet
-                arrival = now_ms
+                arrival = rec['arrival']
                 for off, data in reps:
                     if arrival + off > now_ms:
                         now_ms = arrival + off
                         set_clock(now_ms)
-                    n_sent = len(rig.face.sent)
-                    r = {'now': now_ms, 'ret': None, 'exc': None}
-                    rig.face.running = not down
-                    try:
-                        r['ret'] = _ret(rig.loop.call_now(reply, bytes.fromhex(data)))
-                    except Exception as e:      # noqa
-                        r['exc'] = _exc_name(e)
-                    finally:
-                        rig.face.running = True
-                    r['sent'] = [b.hex() for b in rig.face.sent[n_sent:]]
-                    rec['replies'].append(r)
+                    do_reply(rec, reply, data, down)
                 if fe == 'v2':
                     rec['ctx_deadline'] = calls[0][3].get('deadline') if isinstance(calls[0][3], dict) else None
+                    if 'id' in iopts(ev):
+                        closures[iopts(ev)['id']] = (len(trace), reply, down)
             del calls[:]
             trace.append(rec)
         return {'trace': trace, 'loop_errors': list(rig.loop.errors) if rig is not None else []}
@@ -383,22 +642,37 @@ def _mname(path):
     return ','.join(path_hex(path)) if path else '.'
 
 
+def _deferred(case, impl):
+    """{trace index of an Interest: [data hex of the deferred replies issued on its closure, in order of issue]}"""
+    out = {}
+    for ev, rec in zip(case['events'], impl['trace']):
+        if ev[0] == 'r' and rec.get('done'):
+            out.setdefault(rec['of'], []).append((rec['nth'], ev[3]))
+    return {k: [d for _, d in sorted(v)] for k, v in out.items()}
+
+
 def model_line(case, impl):
     toks = []
-    for ev, rec in zip(case['events'], impl['trace']):
+    deferred = _deferred(case, impl)
+    for k, (ev, rec) in enumerate(zip(case['events'], impl['trace'])):
         if ev[0] == 'a':
             toks.append('a/%s/%s' % (_mname(ev[1]), '~' if ev[2] is None else ev[2]))
         elif ev[0] == 'd':
             toks.append('d/' + _mname(ev[1]))
+        elif ev[0] == 'r':
+            continue          # folded into the token of the Interest it answers (the model's closure is a pure function)
         else:
-            _, path, gap, lifetime, tok, down, reps = ev
+            _, path, gap, lifetime, tok, down, reps = ev[:7]
             # clock readings: the ones the implementation saw; replies that could not be issued
             # (no handler ran) are planned from the case
+            datas = [d for _, d in reps] + deferred.get(k, [])
             nows = [r['now'] for r in rec['replies']]
-            if len(nows) != len(reps):
+            if len(nows) != len(datas):
+                datas = [d for _, d in reps]
                 nows = [rec['arrival'] + o for o, _ in reps]
-            rs = '+'.join('%d:%s' % (n, d) for n, (_, d) in zip(nows, reps)) or '.'
-            toks.append('i/%s/%d/%s/%s/%s/%s' % (_mname(path), rec['arrival'], '~' if lifetime is None else lifetime,
+            rs = '+'.join('%d:%s' % (n, d) for n, d in zip(nows, datas)) or '.'
+            toks.append('i/%s/%d/%s/%s/%s/%s' % (','.join(interest_name_hex(ev)) or '.', rec['arrival'],
+                                                 '~' if lifetime is None else lifetime,
                                                  '~' if tok is None else tok, 'down' if down else 'up', rs))
     return 'C04 %s %s' % (case['fe'], ';'.join(toks) if toks else '.')
 
@@ -413,6 +687,8 @@ def impl_obs(impl):
     for rec in impl['trace']:
         if rec['ev'] in ('a', 'd'):
             out.append(rec['exc'] or 'ok')
+            continue
+        if rec['ev'] == 'r':
             continue
         who = '+'.join('h%d' % h for h, _ in rec['calls']) or 'none'
         if rec['disp']:
@@ -434,7 +710,9 @@ def _spec_replay(case, impl):
     fe = case['fe']
     table = {}          # tuple(path) -> handler id       (what the statement calls the attached prefixes)
     blank = set()       # prefixes at which "no handler" (None) was attached: outside the statement
-    for k, (ev, rec) in enumerate(zip(case['events'], impl['trace'])):
+    served = {}         # trace index of an Interest -> (prefix that served it, handler id)
+    events = case['events']
+    for k, (ev, rec) in enumerate(zip(events, impl['trace'])):
         if ev[0] == 'a':
             p = tuple(ev[1])
             if p in table:
@@ -457,11 +735,42 @@ def _spec_replay(case, impl):
                 del table[p]
             elif rec['exc'] is None:
                 blank.discard(p)
+        elif ev[0] == 'r':
+            if not rec.get('done'):
+                continue
+            k0 = rec['of']
+            ev0, rec0 = events[k0], impl['trace'][k0]
+            r = rec0['replies'][rec['nth']]
+            lifetime, tok, down = ev0[3], ev0[4], ev0[5]
+            L = 4000 if lifetime is None else lifetime
+            off = r['now'] - rec0['arrival']
+            in_time = off <= L
+            stable = k0 in served and table.get(served[k0][0]) == served[k0][1]
+            data = ev[3]
+            want = data if tok is None else tlv(0x64, tlv(0x62, bytes.fromhex(tok)) + tlv(0x50, bytes.fromhex(data))).hex()
+            what = f'event {k}: deferred reply to the Interest of event {k0}'
+            if r['sent'] and not in_time:
+                return f'{what} transmitted after the Interest lifetime elapsed (offset {off - L:+d} ms)'
+            if r['sent'] and down:
+                return f'{what} transmitted although the face is down'
+            if r['exc'] is not None:
+                if in_time and not down and stable:
+                    return f'{what} raised {r["exc"]}'
+                continue
+            truthy = r['ret'] not in ('F', 'N')
+            if truthy != bool(r['sent']):
+                return (f'{what} returned {"truthy" if truthy else "falsy"} ({r["ret"]}) but the packet was '
+                        f'{"sent" if r["sent"] else "not sent"}')
+            if r['sent'] and r['sent'] != [want]:
+                return f'{what} did not transmit exactly the packet (with the token of its own Interest)'
+            if in_time and not down and stable and r['sent'] != [want]:
+                return f'{what} within the lifetime (offset {off - L:+d} ms) did not transmit exactly the packet'
         else:
-            _, path, gap, lifetime, tok, down, reps = ev
+            _, path, gap, lifetime, tok, down, reps = ev[:7]
             n = tuple(path)
             cands = [n[:i] for i in range(len(n), -1, -1)]
-            exp = next((table[c] for c in cands if c in table), None)
+            hit = next((c for c in cands if c in table), None)
+            exp = table[hit] if hit is not None else None
             got = [h for h, _ in rec['calls']]
             if any(c in blank for c in cands):
                 # a None "handler" was attached at a prefix of this name: which handler should run is outside the
@@ -469,6 +778,8 @@ def _spec_replay(case, impl):
                 if len(got) > 1:
                     return f'event {k}: Interest /{"/".join(n)} was delivered to more than one handler {got}'
                 exp = got[0] if got else None
+            elif hit is not None:
+                served[k] = (hit, exp)
             if exp is None and got:
                 return f'event {k}: Interest /{"/".join(n)} matches no attached prefix but handler(s) {got} ran'
             if exp is not None and got != [exp]:
@@ -478,7 +789,7 @@ def _spec_replay(case, impl):
                     return f'event {k}: Interest /{"/".join(n)} was delivered to more than one handler {got}'
                 return f'event {k}: Interest /{"/".join(n)} was delivered to another handler than the one at its longest attached prefix'
             for h, nm in rec['calls']:
-                if nm != path_hex(path):
+                if nm != interest_name_hex(ev):
                     return f'event {k}: handler was invoked with another name than the Interest name'
             if rec.get('sent_on_delivery'):
                 return f'event {k}: bytes were written to the face before any reply'
@@ -493,9 +804,11 @@ def _spec_replay(case, impl):
             if exp is None:
                 continue
             L = 4000 if lifetime is None else lifetime
-            if len(rec['replies']) != len(reps):
+            inline = rec['replies'][:len(reps)]
+            if len(inline) != len(reps):
                 return f'event {k}: harness could not issue the replies'
-            for (off, data), r in zip(reps, rec['replies']):
+            for (off, data), r in zip(reps, inline):
+                off = r['now'] - rec['arrival']          # = the planned offset unless the handler itself ran later
                 in_time = off <= L
                 want = data if tok is None else tlv(0x64, tlv(0x62, bytes.fromhex(tok)) + tlv(0x50, bytes.fromhex(data))).hex()
                 if fe == 'v1':
@@ -574,12 +887,25 @@ def nontrivial(case, impl):
 
 def tags(case, impl):
     t = ['fe:' + case['fe'], 'choices:%d' % _stats(case)]
+    if case.get('labels'):
+        t.append('typed-or-empty-components')
+    last = {}
     for ev, rec in zip(case['events'], impl['trace']):
         if ev[0] in ('a', 'd'):
+            how, _, via = ev[-1].partition('@')
             t.append('%s:%s' % (ev[0], rec['exc'] or 'ok'))
-            t.append('repr:' + ev[-1])
+            t.append('repr:' + how)
+            if via:
+                t.append('via:' + via)
             if ev[0] == 'a' and ev[2] is None:
                 t.append('null-handler')
+            key = tuple(ev[1])
+            if ev[0] == 'a' and rec['exc'] is None and ev[2] is not None and last.get(key) in ('d', 'null'):
+                t.append('attach-after-' + ('detach' if last[key] == 'd' else 'null-handler'))
+            if rec['exc'] is None:
+                last[key] = 'd' if ev[0] == 'd' else ('null' if ev[2] is None else 'a')
+        elif ev[0] == 'r':
+            t.append('deferred-reply:' + ('issued' if rec.get('done') else 'no-closure'))
         else:
             t.append('interest:' + ('delivered' if rec['calls'] else 'dropped'))
             L = 4000 if ev[3] is None else ev[3]
@@ -587,6 +913,13 @@ def tags(case, impl):
                 t.append('reply:%s%s' % ('before' if off < L else 'at' if off == L else 'after', '-facedown' if ev[5] else ''))
             if ev[4] is not None:
                 t.append('pit-token')
+            if ev[3] == 0:
+                t.append('lifetime-0')
+            for k in iopts(ev):
+                if k == 'vdelay':
+                    t.append('slow-validator:' + ('handler-ran-late' if ev[7][k] > L else 'in-time'))
+                elif k != 'id':
+                    t.append('interest-' + k + ('-empty' if k == 'app' and ev[7][k] == '' else ''))
     return t
 
 
